@@ -125,6 +125,10 @@ def sample_program(
         samples, key = sample_component(component, f_params, key)
         results.append(samples)
 
+    if not results:
+        # No outputs (e.g. a circuit without measurements): one empty row per shot.
+        return jnp.zeros((f_params.shape[0], 0), dtype=jnp.bool_)
+
     combined = jnp.concatenate(results, axis=1)
     return combined[:, jnp.argsort(program.output_order)]
 
